@@ -50,6 +50,8 @@ pub struct Tokinizer<'a> {
     pub language: String,
     pub token_infos: Vec<Rc<TokenInfo>>,
     pub tokens: Vec<Rc<TokenType>>,
+    pub decimal_seperator: String,
+    pub thousand_separator: String,
 }
 
 #[derive(Debug)]
@@ -88,7 +90,9 @@ impl<'a> Tokinizer<'a> {
             session,
             language: session.get_language(),
             token_infos: Vec::new(),
-            tokens: Vec::new()
+            tokens: Vec::new(),
+            decimal_seperator: config.decimal_seperator.to_string(),
+            thousand_separator: config.thousand_separator.to_string()
         }
     }
 
@@ -105,7 +109,9 @@ impl<'a> Tokinizer<'a> {
             session,
             language: session.get_language(),
             token_infos: Vec::new(),
-            tokens: Vec::new()
+            tokens: Vec::new(),
+            decimal_seperator: config.decimal_seperator.to_string(),
+            thousand_separator: config.thousand_separator.to_string()
         };
 
         language_tokinizer(&mut tokinizer);
